@@ -1,6 +1,372 @@
-"""C13 rules (placeholder: fail-closed until the rules are implemented)."""
-from ..loader import AnalysisError
+"""C13 - local pool: every task reaches the final state matching what happened; logs complete; no survivors."""
+import ast
+
+from ..consteval import CantEval, EnumVal
+from ..index import FuncInfo, dotted, walk_no_nested, loc
+from ..paths import RAISE, RETURN, Explorer, Semantics, State
+from .localpool import CANCEL, FINAL, LOCAL, TaskSem, _calls, explore_task, local_status_members, scheduler_info, witness
+
+
+def rule_exit_status(ctx, r, fi, sem, outs):
+    """COMPLETED is stored only for exit status 0; shared by C11 and C13."""
+    construct = f"{fi.module.relpath}::{fi.qual}"
+    rc_bad = None
+    n = 0
+    for o in outs:
+        if o.kind == RETURN and o.state.vars.get(sem.own_state) == frozenset(["COMPLETED"]):
+            n += 1
+            for k, v in o.state.vars.items():
+                if k.endswith(".returncode") and (v - frozenset([0])):
+                    rc_bad = (o, k, v)
+    if rc_bad:
+        o, k, v = rc_bad
+        r.violation(construct + "::exit-status", f"the task is marked COMPLETED on a path where {k} may be {sorted(map(str, v - frozenset([0])))} "
+                    "(non-zero or signal exit counted as success)", fi.where, witness(o.state, fi))
+    elif n:
+        r.ok(construct + "::exit-status", f"{n} COMPLETED exit(s), all with exit status refined to 0", fi.where)
+    else:
+        r.violation(construct + "::exit-status", "no path stores COMPLETED: a task that ran and exited 0 never completes", fi.where)
+
+
+class KillSem(Semantics):
+    def __init__(self, ctx, finfo):
+        super().__init__(ctx.index, finfo)
+        self.ctx = ctx
+        params = finfo.positional_params()
+        self.proc = params[1] if len(params) > 1 else "proc"
+
+    def domain(self, text):
+        if text == self.proc:
+            return (None, "PROC")
+        return None
+
+    def truthy(self, v):
+        return v is not None
+
+    def may_raise(self, node, state):
+        return []
+
+    def _is_group_signal(self, call, depth=0):
+        canon = self.index.canon(call.func, self.module) if isinstance(call.func, (ast.Name, ast.Attribute)) else None
+        if canon == "os.killpg":
+            return True
+        if depth < 2:
+            res = self.ctx.resolver.callees(call, self.finfo, {})
+            for callee in res:
+                if isinstance(callee, FuncInfo) and callee.module.name == LOCAL:
+                    # helper: signals the group on its (only) path, argument derived from the process
+                    passes_proc = any(dotted(a) == self.proc or (isinstance(a, ast.Attribute) and dotted(a.value) == self.proc)
+                                      for a in call.args)
+                    if passes_proc and any(self.index.canon(c.func, callee.module) == "os.killpg" for c in _calls(callee.node)
+                                           if isinstance(c.func, (ast.Name, ast.Attribute))):
+                        return True
+        return False
+
+    def effect(self, node, state):
+        if isinstance(node, tuple):
+            return state
+        s = state
+        for c in _calls(node):
+            if self._is_group_signal(c):
+                s = s.with_fact("group", True).note(node, "process group signalled")
+            f = c.func
+            if isinstance(f, ast.Attribute) and f.attr in ("kill", "terminate", "send_signal") and dotted(f.value) == self.proc:
+                s = s.with_fact("single", True).note(node, f"only the shell is signalled ({f.attr})")
+            if isinstance(f, ast.Attribute) and f.attr == "wait" and dotted(f.value) == self.proc:
+                s = s.with_fact("reaped", True).note(node, "await proc.wait()")
+        return s
+
+
+class CancelSem(Semantics):
+    def __init__(self, ctx, finfo, info, members):
+        super().__init__(ctx.index, finfo)
+        self.ctx = ctx
+        self.info = info
+        self.members = members
+        self.tid = finfo.positional_params()[1]
+        self.own = f"self.{info['states']}[{self.tid}]"
+        self.events = []
+
+    def domain(self, text):
+        return self.members if text == self.own else None
+
+    def truthy(self, v):
+        return True
+
+    def const(self, expr, state):
+        t = ast.unparse(expr)
+        if t in state.vars:
+            return state.vars[t]
+        try:
+            v = self.ctx.ev.eval(expr, self.module)
+        except CantEval:
+            return None
+        if isinstance(v, EnumVal):
+            return frozenset([v.member])
+        if isinstance(v, (tuple, list, set, frozenset)) and all(isinstance(x, EnumVal) for x in v):
+            return frozenset(x.member for x in v)
+        return None
+
+    def may_raise(self, node, state):
+        return []
+
+    def effect(self, node, state):
+        if isinstance(node, tuple):
+            return state
+        dom = state.vars.get(self.own, frozenset(self.members))
+        for c in _calls(node):
+            if isinstance(c.func, ast.Attribute) and c.func.attr == "cancel":
+                self.events.append(("cancel", node, dom, state))
+                state = state.with_fact("cancelled", True)
+        if isinstance(node, ast.Assign):
+            for t in node.targets:
+                if ast.unparse(t) == self.own:
+                    vals = self.const(node.value, state)
+                    self.events.append(("store", node, dom, state, vals))
+                    state = state.with_fact("stored", tuple(sorted(vals)) if vals else ("?",))
+        return state
 
 
 def run(ctx):
-    raise AnalysisError("rules for C13 not implemented yet")
+    fi, sem, outs, steps = explore_task(ctx)
+    idx = ctx.index
+    info = scheduler_info(ctx)
+    members = local_status_members(ctx)
+    construct = f"{fi.module.relpath}::{fi.qual}"
+    ctx.note(f"explored {len(outs)} distinct exits of {fi.qual} ({steps} statement visits)")
+
+    # ---------------- R1 final state on every exit
+    r1 = ctx.rule("R1", "every exit of the task coroutine leaves a final state in the state table")
+    # pairing for escaping CancelledError: cancel_task stores CANCELLED itself
+    ct = idx.func(f"{LOCAL}:Scheduler.cancel_task")
+    csem = CancelSem(ctx, ct, info, members)
+    Explorer(csem).run(State())
+    cancel_pairs = any(e[0] == "store" and e[4] == frozenset(["CANCELLED"]) for e in csem.events) and any(
+        e[0] == "cancel" for e in csem.events)
+    groups = {}
+    for o in outs:
+        vals = o.state.vars.get(sem.own_state, frozenset(members))
+        nonfinal = vals - FINAL
+        if not nonfinal:
+            continue
+        exc = o.payload if o.kind == RAISE else None
+        if exc is not None and sem.h.is_sub(exc, CANCEL) and cancel_pairs:
+            continue  # the canceller stored CANCELLED (R3)
+        groups.setdefault((o.kind, exc, tuple(sorted(nonfinal))), o)
+    if groups:
+        for (kind, exc, nonfinal), o in sorted(groups.items(), key=str):
+            how = f"escaping {exc}" if exc else "returning"
+            r1.violation(f"{construct}::{exc or 'return'}", f"the coroutine can end ({how}) with the task still {'/'.join(nonfinal)}: "
+                         "it, and every task depending on it, then never reaches a final state", fi.where, witness(o.state, fi))
+    else:
+        r1.ok(construct, f"{len(outs)} exits, all with a final state (escaping CancelledError is covered by cancel_task's store)", fi.where)
+
+    # ---------------- R2 cause <-> state
+    r2 = ctx.rule("R2", "the final state matches the cause (cancel->CANCELLED, time-out->KILLED, non-zero exit / cannot start -> FAILED, exit 0 -> COMPLETED)", min_instances=4)
+    expect = {
+        "asyncio.exceptions.CancelledError": "CANCELLED",
+        "builtins.TimeoutError": "KILLED",
+        f"{LOCAL}.TaskFailedError": "FAILED",
+        "builtins.FileNotFoundError": "FAILED",
+        "builtins.PermissionError": "FAILED",
+        "builtins.OSError": "FAILED",
+        "builtins.KeyError": "FAILED",
+    }
+    seen_causes = {}
+    for o in outs:
+        if o.kind != RETURN:
+            continue
+        cause = o.state.facts.get("cause")
+        vals = o.state.vars.get(sem.own_state, frozenset(members))
+        if cause is None:
+            continue
+        cause_n = sem.h.norm(cause)
+        want = expect.get(cause_n)
+        if want is None:
+            continue
+        if vals != frozenset([want]):
+            key = (cause_n, tuple(sorted(vals)))
+            if key not in seen_causes:
+                seen_causes[key] = o
+                r2.violation(f"{construct}::{cause_n}", f"after {cause_n} the task ends as {'/'.join(sorted(vals))}, expected {want}",
+                             fi.where, witness(o.state, fi))
+        else:
+            seen_causes.setdefault((cause_n, "ok"), o)
+    for c in sorted({k[0] for k in seen_causes if k[1] == "ok"}):
+        r2.ok(f"{construct}::{c}", f"{c} -> {expect[c]}", fi.where)
+    for needed in ("asyncio.exceptions.CancelledError", "builtins.TimeoutError", f"{LOCAL}.TaskFailedError"):
+        if not any(k[0] == needed for k in seen_causes):
+            r2.violation(f"{construct}::{needed}", f"no path handles {needed}: that outcome has no final state of its own", fi.where)
+    rule_exit_status(ctx, r2, fi, sem, outs)
+    # COMPLETED only after the process ran
+    for o in outs:
+        if o.kind == RETURN and o.state.vars.get(sem.own_state) == frozenset(["COMPLETED"]):
+            if not (o.state.facts.get("started") and o.state.facts.get("communicated")):
+                r2.violation(construct + "::completed-without-run", "COMPLETED is stored on a path where the process was not started and awaited",
+                             fi.where, witness(o.state, fi))
+                break
+    # tid never rebound
+    comp_nodes = set()
+    for n in walk_no_nested(fi.node):
+        if isinstance(n, (ast.ListComp, ast.SetComp, ast.DictComp, ast.GeneratorExp)):
+            comp_nodes.update(id(x) for x in ast.walk(n))  # comprehension targets live in their own scope
+    rebound = [n for n in walk_no_nested(fi.node) if isinstance(n, ast.Name) and n.id == sem.p_tid and isinstance(n.ctx, ast.Store)
+               and id(n) not in comp_nodes]
+    r2.check(not rebound, construct + "::tid", "the task id parameter is never rebound in the coroutine",
+             f"the task id parameter `{sem.p_tid}` is rebound in the coroutine: states would be stored under another task's id",
+             loc(rebound[0], fi.module) if rebound else fi.where)
+
+    # ---------------- R3 cancel guard / run once
+    r3 = ctx.rule("R3", "cancel only affects SUBMITTED/RUNNING tasks; a task is started exactly once with a fresh id", min_instances=3)
+    cconstruct = f"{ct.module.relpath}::{ct.qual}"
+    live = frozenset(members) - FINAL  # SUBMITTED, RUNNING (and the never-stored UNKNOWN)
+    n_ev = 0
+    for e in csem.events:
+        n_ev += 1
+        dom = e[2]
+        if e[0] == "cancel":
+            r3.check(dom <= live, cconstruct + "::cancel()", "worker task cancelled only when SUBMITTED/RUNNING",
+                     f"the worker task can be cancelled while the task is {'/'.join(sorted(dom - live))}", loc(e[1], ct.module))
+        else:
+            bad = dom - live
+            r3.check(not bad, cconstruct + "::store", f"state overwritten only when SUBMITTED/RUNNING (stores {sorted(e[4] or [])})",
+                     f"cancel overwrites the state of a task that is {'/'.join(sorted(bad))}: a finished task does not keep its final state",
+                     loc(e[1], ct.module))
+    if n_ev == 0:
+        r3.violation(cconstruct, "cancel_task neither cancels the worker task nor stores a state", ct.where)
+    enq = idx.func(f"{LOCAL}:Scheduler.enqueue_task")
+    econ = f"{enq.module.relpath}::{enq.qual}"
+    # who may start the coroutine
+    callers = []
+    for f in idx.functions.values():
+        for n in walk_no_nested(f.node):
+            if isinstance(n, ast.Call) and isinstance(n.func, ast.Attribute) and n.func.attr == fi.name:
+                callers.append((f, n))
+    bad_callers = [c for c in callers if c[0].key != enq.key]
+    r3.check(callers and not bad_callers, econ + "::who-may-call", f"{fi.name} is started only by enqueue_task ({len(callers)} site)",
+             f"{fi.name} is started from {[c[0].key for c in bad_callers] or 'nowhere'}: a task could be run again", enq.where)
+    # no await between create_task and the SUBMITTED store; fresh id
+    body = enq.node.body
+    created = stored = None
+    awaits_between = False
+    for i, st in enumerate(body):
+        if any(isinstance(c.func, (ast.Name, ast.Attribute)) and (idx.canon(c.func, enq.module) or "").endswith("create_task")
+               or (isinstance(c.func, (ast.Name, ast.Attribute)) and idx.canon(c.func, enq.module) == "asyncio.ensure_future") for c in _calls(st)):
+            created = i
+        if isinstance(st, ast.Assign) and isinstance(st.targets[0], ast.Subscript) and isinstance(st.targets[0].value, ast.Attribute) \
+                and st.targets[0].value.attr == info["states"]:
+            try:
+                v = ctx.ev.eval(st.value, enq.module)
+            except CantEval:
+                v = None
+            if isinstance(v, EnumVal) and v.member == "SUBMITTED":
+                stored = i
+    if created is not None and stored is not None:
+        lo, hi = sorted((created, stored))
+        for st in body[lo + 1: hi + 1]:
+            if any(isinstance(n, ast.Await) for n in ast.walk(st)):
+                awaits_between = True
+    r3.check(created is not None and stored is not None and not awaits_between, econ + "::initial-state",
+             "task created and marked SUBMITTED without an await in between",
+             "enqueue_task does not mark the new task SUBMITTED atomically with creating it (missing store or an await in between)", enq.where)
+
+    # ---------------- R4 logs
+    r4 = ctx.rule("R4", "stdout/stderr of a task that ran to its end are stored completely in .gwf/logs/<name>.stdout/.stderr", min_instances=2)
+    by_suffix = {}
+    for site in sem.log_list:
+        by_suffix.setdefault(site["suffix"], site)
+    for suffix, pos in ((".stdout", 0), (".stderr", 1)):
+        site = by_suffix.get(suffix)
+        c = f"{construct}::log{suffix}"
+        if site is None:
+            r4.violation(c, f"no write of the {suffix} log found in the task coroutine", fi.where)
+            continue
+        want = sem.comm_vars[pos] if sem.comm_vars else None
+        where = loc(site["write"], fi.module)
+        ok = True
+        if want is None or site["buffer"] != want:
+            r4.violation(c, f"the {suffix} log is written from `{site['buffer']}`, not from the {('stdout', 'stderr')[pos]} buffer "
+                         f"returned by communicate() (`{want}`)", where)
+            ok = False
+        if site["mode"] not in ("wb", "bw", "w+b", "wb+"):
+            r4.violation(c + "::mode", f"log opened with mode {site['mode']!r}: bytes of the latest run must replace the file (expected 'wb')", where)
+            ok = False
+        text = ast.unparse(site["open"])
+        if not (".gwf" in text and "logs" in text and sem.p_name in {n.id for n in ast.walk(site["open"]) if isinstance(n, ast.Name)}):
+            r4.violation(c + "::path", f"log path `{text[:80]}` is not <project>/.gwf/logs/<task name>{suffix}", where)
+            ok = False
+        if "working_dir" in text and dotted_has_param(site["open"], sem.p_wd):
+            r4.violation(c + "::path", "log path is built from the task's working directory instead of the project's", where)
+            ok = False
+        if ok:
+            r4.ok(c, f"{site['buffer']} -> {suffix} (mode {site['mode']})", where)
+    # logs before the failure raise and before COMPLETED
+    for o in outs:
+        cause = o.state.facts.get("cause")
+        if cause and sem.h.norm(cause) == f"{LOCAL}.TaskFailedError":
+            lg = o.state.facts.get("logs_at_raise", ())
+            if set(lg) != {".stdout", ".stderr"}:
+                r4.violation(construct + "::logs-before-failure", f"TaskFailedError is raised before both logs are written (written: {list(lg)}): "
+                             "the output of a failing task is lost", fi.where, witness(o.state, fi))
+                break
+    else:
+        r4.ok(construct + "::logs-before-failure", "both logs are written on every path before the failure is raised", fi.where)
+    for o in outs:
+        if o.kind == RETURN and o.state.vars.get(sem.own_state) == frozenset(["COMPLETED"]):
+            got = {k[4:] for k in o.state.facts if k.startswith("log:")}
+            if got != {".stdout", ".stderr"}:
+                r4.violation(construct + "::logs-on-success", f"a task can complete without both logs written (written: {sorted(got)})",
+                             fi.where, witness(o.state, fi))
+                break
+
+    # ---------------- R5 kill on abort paths
+    r5 = ctx.rule("R5", "cancelled and timed-out tasks run the kill sequence on their process", min_instances=2)
+    for cause_n, label in (("asyncio.exceptions.CancelledError", "cancellation"), ("builtins.TimeoutError", "time-out")):
+        rel = [o for o in outs if o.state.facts.get("cause") and sem.h.norm(o.state.facts["cause"]) == cause_n and o.state.facts.get("started")]
+        bad = [o for o in rel if not o.state.facts.get("killed")]
+        if not rel:
+            r5.violation(f"{construct}::{label}", f"no explored path starts a process and then sees a {label}", fi.where)
+        elif bad:
+            r5.violation(f"{construct}::{label}", f"after a {label} the started process is not passed to the kill sequence", fi.where,
+                         witness(bad[0].state, fi))
+        else:
+            r5.ok(f"{construct}::{label}", f"{len(rel)} path(s) with a started process, all killed", fi.where)
+
+    # ---------------- R6 group kill
+    r6 = ctx.rule("R6", "the kill sequence signals the whole process group of the task and reaps it", min_instances=2)
+    gk = idx.func(f"{LOCAL}:Scheduler._gentle_kill")
+    ksem = KillSem(ctx, gk)
+    kouts = Explorer(ksem).run(State())
+    gcon = f"{gk.module.relpath}::{gk.qual}"
+    bad = [o for o in kouts if o.state.vars.get(ksem.proc, frozenset(["PROC"])) != frozenset([None]) and not o.state.facts.get("group")]
+    if bad:
+        o = bad[0]
+        what = "only the shell itself is signalled" if o.state.facts.get("single") else "nothing is signalled"
+        r6.violation(gcon, f"the kill sequence can finish for a live process without signalling its process group ({what}): "
+                     "children spawned by the script survive", gk.where, witness(o.state, gk))
+    else:
+        r6.ok(gcon, f"{len(kouts)} exits; every one with a process signals its group", gk.where)
+    notreaped = [o for o in kouts if o.state.vars.get(ksem.proc, frozenset(["PROC"])) != frozenset([None]) and not o.state.facts.get("reaped")]
+    r6.check(not notreaped, gcon + "::wait", "every exit with a process awaits proc.wait()",
+             "the kill sequence can return without awaiting proc.wait(): the core is released while the process may still run", gk.where,
+             witness(notreaped[0].state, gk) if notreaped else None)
+    # session/group leader at creation
+    leader = False
+    site = None
+    for n in walk_no_nested(fi.node):
+        if isinstance(n, ast.Call) and (idx.canon(n.func, fi.module) or "").startswith("asyncio.create_subprocess_"):
+            site = n
+            for kw in n.keywords:
+                if kw.arg == "start_new_session" and isinstance(kw.value, ast.Constant) and kw.value.value is True:
+                    leader = True
+                if kw.arg == "process_group" and isinstance(kw.value, ast.Constant) and kw.value.value == 0:
+                    leader = True
+                if kw.arg == "preexec_fn" and idx.canon(kw.value, fi.module) in ("os.setsid", "os.setpgrp"):
+                    leader = True
+    r6.check(leader, construct + "::create_subprocess", "task process is started as session/group leader",
+             "the task's process is not started in its own session/process group, so a group kill cannot be aimed at it",
+             loc(site, fi.module) if site is not None else fi.where)
+
+
+def dotted_has_param(expr, pname):
+    return any(isinstance(n, ast.Name) and n.id == pname for n in ast.walk(expr))
